@@ -21,7 +21,8 @@ struct CaseResult {
 struct RunCtx {
     std::string scratch;           // scratch directory for this process
     int tier = 0;                  // 0 quick, 1 thorough
-    std::set<std::string> openFindings;   // ids of open known findings (from known_findings.json, via VERIF_OPEN_FINDINGS)
+    std::set<std::string> openFindings;   // ids of open known findings (from known_findings.json, via VERIF_OPEN_FINDINGS; 'ID!C06!C08' = not excluded for C06, C08)
+    std::map<std::string, std::set<std::string>> notExcludedFor;
     bool isOpen(const std::string &id) const { return openFindings.count(id) != 0; }
 };
 
